@@ -552,7 +552,20 @@ pub fn gen_script(r: &mut Rng, flavor: &str) -> String {
     let silent_start = flavor == "C20" && r.chance(1, 3);
     let hs_kind = if flavor == "C08" { r.below(6) } else if silent_start { 5 } else { 0 };
     let peer_id = if outgoing { expected_id.clone() } else { rand_id(r) };
+    if flavor == "C08" && hs_kind == 2 {
+        // a handshake whose protocol string is wrong in exactly one byte (the first, one in the middle, the last): it is not
+        // a handshake of this protocol, whatever info-hash it carries
+        let mut raw = vec![19u8];
+        raw.extend_from_slice(b"BitTorrent protocol");
+        let pos = *r.pick(&[1usize, 2, 10, 18, 19]);
+        raw[pos] ^= 0x20;
+        raw.extend_from_slice(&[0u8; 8]);
+        raw.extend_from_slice(&[7u8; 20]);
+        raw.extend_from_slice(&unhex(&peer_id));
+        evs.push(format!("x:{}", hex(&raw)));
+    }
     match hs_kind {
+        2 if flavor == "C08" => {}
         0 | 1 | 2 => evs.push(format!("{}>B{}", hs_valid(&peer_id), hex(&r.bytes(bf_bytes)))),
         3 => evs.push(format!("f:hs,{},{}>B{}", hex(&r.bytes(20)), peer_id, hex(&r.bytes(bf_bytes)))),
         4 => evs.push(format!("{}>B{}", hs_valid(&rand_id(r)), hex(&r.bytes(bf_bytes)))),
@@ -813,8 +826,11 @@ pub fn gen_script(r: &mut Rng, flavor: &str) -> String {
                 } else if w(86, 89) {
                     let n = if r.chance(9, 10) { bf_bytes } else { bf_bytes + 1 };
                     format!("f:bf,{}>S{}{}", hex(&r.bytes(n)), if r.coin() { 'u' } else { '-' }, if r.coin() { 'i' } else { 'n' })
-                } else if w(89, 92) {
+                } else if w(89, 91) {
                     format!("t{}", r.pick(&[10u64, 120]))
+                } else if w(91, 92) {
+                    // the peer's own timer: a keep-alive in the middle of whatever is going on
+                    "f:ka".into()
                 } else if w(92, 94) {
                     "e".into()
                 } else if w(94, 96) {
